@@ -417,7 +417,9 @@ func (p *recorder) Run() {
 		if !ok {
 			break
 		}
-		vproto.Emit(&vproto.Event{Ev: "rec", Rec: p.Name(), Seq: i, Path: ip.Path()})
+		// is the file there at the moment the item is handed over? (sub-stream carriers and streamed items have none)
+		_, statErr := os.Stat(ip.Path())
+		vproto.Emit(&vproto.Event{Ev: "rec", Rec: p.Name(), Seq: i, Path: ip.Path(), Exists: statErr == nil})
 		i++
 		p.OutPort("out").Send(ip)
 	}
